@@ -176,7 +176,7 @@ func c02(r *report.Run) {
 	r.Assume("the only compile-time rejection allowed to the optimizer is a constant integer division/modulo by zero; a ConstExpr mark may reject only a call that fails at run time unmarked")
 }
 
-var constExprFns = []string{"Add", "Cat", "Half", "TakesI64", "TakesF64", "IsNil", "MkArr", "Boom", "Sum", "Fast"}
+var constExprFns = []string{"Add", "Cat", "Half", "TakesI64", "TakesF64", "IsNil", "MkArr", "Boom", "Sum", "Fast", "TakesAny"}
 
 // constexpr: calls of functions marked as constant expressions on every literal kind,
 // folded constants and nested const-expr calls.
@@ -195,11 +195,12 @@ func sliceConstExpr() *slice {
 		gen.Call("Sum", gen.TInt), gen.Call("Sum", gen.TInt, gen.TInt), gen.Call("Sum", gen.TInt, gen.TInt, gen.TInt),
 		gen.Call("Fast", gen.TAny, gen.TInt, gen.TNil), gen.Call("Fast", gen.TAny),
 		gen.Len(gen.TIntArr), gen.Bin("in", gen.TInt, gen.TIntArr, gen.TBool),
+		gen.Lit(`"1"`, gen.TStr, "1"), gen.Call("TakesAny", gen.TAny, gen.TInt), gen.Call("TakesAny", gen.TAny, gen.TStr), gen.Call("TakesAny", gen.TAny, gen.TFloat), gen.Arr(gen.TAny, gen.TAny),
 		gen.Cond(gen.TInt), gen.Bin(">", gen.TInt, gen.TInt, gen.TBool),
 		gen.Bin("==", gen.TI64, gen.TInt, gen.TBool), gen.Bin("+", gen.TFloat, gen.TFloat, gen.TFloat),
 	}
 	return &slice{name: "constexpr", g: gen.NewGrammar(rules),
-		tops:  []gen.NT{nt(gen.TBool), nt(gen.TInt), nt(gen.TFloat), nt(gen.TStr), nt(gen.TIntArr), nt(gen.TI64), nt(gen.TAny)},
+		tops:  []gen.NT{nt(gen.TBool), nt(gen.TInt), nt(gen.TFloat), nt(gen.TStr), nt(gen.TIntArr), nt(gen.TI64), nt(gen.TAny), nt(gen.TAnyArr)},
 		modes: []lib.Mode{{Env: "struct"}, {Env: "map"}},
 		maxN:  map[string]int{"quick": 5, "thorough": 6}}
 }
